@@ -1798,7 +1798,7 @@ func checkDecoderRowsCleared(c *Ctx, rule string) {
 		c.Check(rule, fmt.Sprintf("Result.GetRow/return#%d-cleared", n), instrPos(r), good, "the returned row collection[n-1] is cleared on every path before it is handed out")
 	}
 	sc := w.Fn("dig", "(*Result).Scan")
-	scan := w.Fn("dig", "scan")
+	scan, _, _ := scanAnchor(w)
 	calls := callsToFn(sc, scan)
 	okReset := len(calls) == 1
 	if okReset {
